@@ -514,3 +514,6 @@ CHECKS["C07"]["jobs"] += [FZ("fuzz-check", AGENT, "FuzzC07Check", "120s", toolch
 CHECKS["C15"]["jobs"].append(J("frontends-trace", VTRACE, "TestC15FrontendsTrace", {"shards": 4, "checks": 3}, {"shards": 16, "checks": 60}))
 CHECKS["C15"]["prebuild"] = DRV_PREBUILD + BIN_PREBUILD
 CHECKS["C15"]["required_classes"]["all"] += ["traced-frontend-request:sasl", "traced-frontend-request:ldap-bind"]
+
+CHECKS["C08"]["jobs"].append(J("readerstress", VSTORE, "TestC08ReaderStress", {"shards": 1, "n": 3}, {"shards": 2, "n": 60}, rapid=False))
+CHECKS["C08"]["required_classes"]["all"] += ["reader-stress"]
